@@ -3,6 +3,7 @@ import AFDriver.Wire
 import AFModel.FloatOps
 import AFModel.Freeze
 import AFModel.FreezeTree
+import AFModel.RecCache
 
 open Lean (Json)
 open AF AF.Wire
@@ -114,7 +115,23 @@ def handleC13Tree (j : Json) : Except String Json := do
   let (outs, safe, flags) := go ⟨roots.map TState.init⟩ (wops.zip tgts) [] [] []
   pure (Json.mkObj [("outs", Json.arr outs.toArray), ("safe", Json.arr safe.toArray), ("frozen", Json.arr flags.toArray)])
 
+/-! ### recursion cache (`AFModel/RecCache.lean`): request `{"mode": "reccache", "calls": [call…]}` -/
+
+partial def parseRCall (j : Json) : Except String RCall := do
+  let id ← getNat j "id"
+  let raises ← getBool j "raises"
+  let ch ← (← getArr j "children").toList.mapM parseRCall
+  pure (.node id raises ch)
+
+def handleC13Rec (j : Json) : Except String Json := do
+  let calls ← (← getArr j "calls").toList.mapM parseRCall
+  let r := rcalls ⟨[], []⟩ calls
+  let outs := r.2.map fun o => match o with
+    | .ok => Json.str "ok" | .raised => Json.str "raised" | .promise => Json.str "promise"
+  pure (Json.mkObj [("outs", Json.arr outs.toArray), ("cache", jsonOfNats r.1.cache), ("trace", jsonOfNats r.1.trace)])
+
 def handleC13 (j : Json) : Except String Json := do
+  if (j.getObjVal? "mode").toOption == some (Json.str "reccache") then return (← handleC13Rec j)
   if (j.getObjVal? "mode").toOption == some (Json.str "tree") then return (← handleC13Tree j)
   let T : Topo := { sub := (← natListMap (← j.getObjVal? "sub")), anc := (← natListMap (← j.getObjVal? "anc")) }
   let frozen0 ← match j.getObjVal? "init_frozen" with
